@@ -3,7 +3,7 @@ register("C15",
     "Exact structural rules, each a necessary condition of memory safety on valid use: constructor-initialisation completeness of scalar "
     "members over all constructors of all classes (CFG dataflow), destructor releases what the class allocates, router-owned objects are "
     "deleted only under the destructor guard, no iterator use after erase. Decides those clauses for every path/constructor/call site; "
-    "does not decide absence of all UB for all API histories. Added: destructor drain loops, no address of a local stored in a member, Edge::getRoute writes within its arrays, ActionInfo identity.",
+    "does not decide absence of all UB for all API histories. Added: destructor drain loops, no address of a local stored in a member, Edge::getRoute writes within its arrays, ActionInfo identity. Added later: containers whose element addresses are handed out lose elements only at reviewed sites; the two blocks of a solver split are each inserted xor deleted (both copies).",
     "Trusted: clang 14 AST/CFG; reviewed exception tables under tables/ (each entry with a reason); exceptional (throwing) paths are out of scope.",
     "custom dataflow / typestate lints over the type-resolved clang AST, CFG and call graph (libTooling extractor + Python rules)",
     "DESIGN.md §5 C15")
@@ -40,7 +40,7 @@ register("C09",
     "For every path of removeoverlaps the global borders are restored at normal exit; every Rectangle mover reachable from it is "
     "size-preserving and attains the requested coordinate (symbolic affine evaluation); no other writer of a rectangle extent is reachable; "
     "every generated constraint is left + (ext(a)+ext(b))/2 <= right with the right dimension and side; the scan-line comparator does not "
-    "order by addresses before ids. Does not decide that the constraint set removes all overlap, nor the <1% bound for fixed rectangles.",
+    "order by addresses before ids. Does not decide that the constraint set removes all overlap, nor the <1% bound for fixed rectangles. Added: the saved borders are per-call locals; the left / right neighbour-list helpers classify alike.",
     "Trusted: clang CFG (no exception edges: the catch(char*) path is out of scope); call graph over resolved callees.",
     "CFG pairing rule, call-graph reachability + who-writes, symbolic affine evaluation, semantic template match of constraint constructions",
     "DESIGN.md §5 C09")
@@ -60,7 +60,7 @@ register("C06",
     "and opposite-side end points); Router::processActions removes, re-tests (every moved and every deleted id), marks, re-adds, blocks "
     "and recomputes visibility for every queued action under conditions no stronger than the reviewed ones; processTransaction gives up "
     "only when nothing is queued; every connector with a raised flag reaches generatePath; blocker ids are recorded and re-tested. Does "
-    "not decide equality of route costs with a fresh router for all edit histories, nor validity of every route.",
+    "not decide equality of route costs with a fresh router for all edit histories, nor validity of every route. Added: the per-connector loop of the selective-reroute test skips a connector only for the three reviewed reasons; generatePath clears the reroute flag before the search only, so the search's retry signal survives.",
     "Trusted: clang AST/CFG; propositional path conditions over normal-form atoms (early continues included); the interpreter for the "
     "crossing-point table (8x7 integer end-point pairs, one axis-parallel edge).",
     "CFG must-pass-through / loop-carried-dependence dataflow, guarded-by entailment over path conditions, who-writes, symbolic "
@@ -120,7 +120,7 @@ register("C11",
     "before every rerouting round; temporary pin visibility is removed on every path of generatePath; checkpoint direction masks are "
     "restored whenever they were applied; every function that replaces a shape's geometry repositions all of its pins; pin positions are "
     "the documented affine functions of the shape's bounding box (symbolic); default pin directions follow the attachment position. "
-    "Does not decide that the cheapest pin is chosen nor numeric end-point equality after moves. Added: pins repositioned from the shape's own polygon; updatePositionAndVisibility refreshes everything on every path; queued end-point changes (user vs pin-follow) interpreted on all short sequences.",
+    "Does not decide that the cheapest pin is chosen nor numeric end-point equality after moves. Added: pins repositioned from the shape's own polygon; updatePositionAndVisibility refreshes everything on every path; queued end-point changes (user vs pin-follow) interpreted on all short sequences. Added later: the pin-availability test is equivalent at its three sites; breakpoint insertion at both ends of a line is mirror-image code.",
     "Trusted: clang AST/CFG; engine/microai; offsetBoundingBox abstracted to a symbolic box.",
     "guarded-by entailment, who-writes, CFG pairing rules, symbolic affine evaluation of pin positions, finite direction table",
     "DESIGN.md §5 C11")
@@ -130,7 +130,7 @@ register("C08",
     "iff the rectangles overlap in the other dimension, ordered by centre, with gap = sum of the half extents of that dimension, creator "
     "recorded; all libcola addShape call sites pass width/2, height/2 of the same rectangle and cover all indices; the non-overlap object is "
     "appended to extraConstraints whenever requested and a containment constraint is created for every non-root cluster. Does not decide "
-    "that the constraints remove all overlap for all inputs nor the cluster containment numerics. Added: exemption groups, cluster/cluster and cluster/shape constraint forms, cluster bounding rectangles and boundary-variable numbering (interpreted on small hierarchies).",
+    "that the constraints remove all overlap for all inputs nor the cluster containment numerics. Added: exemption groups, cluster/cluster and cluster/shape constraint forms, cluster bounding rectangles and boundary-variable numbering (interpreted on small hierarchies). Added later: fixed-rectangle clusters are tied to their rectangle by four equalities; nodes no cluster lists join the root cluster under count == 0 and nothing else (count atoms evaluated arithmetically).",
     "Trusted: engine/microai incl. its std::list/map/set model; cluster-bounded shapes are not interpreted (plain shapes only).",
     "abstract interpretation (object-level) of the constraint generator + guarded-by / loop-coverage rules",
     "DESIGN.md §5 C08")
@@ -140,7 +140,7 @@ register("C10",
     "path conditions incl. early exits); a fixed segment's points are never written, a free segment writes the clamped solver position to "
     "exactly one coordinate of exactly its own points (symbolic); fixed segments get the fixed weight/id, zig-zags the channel middle; no "
     "function reachable from the nudging entry point changes the number of points of a route; low/high and above/below helpers stay mirror "
-    "images. Does not decide separation distances, channel-width reasoning or the ordering of nudged segments. Added: movement limits only tightened; nudging regions closed under overlapsWith; the pair-constraint loop carries no state; checkpoint cache complete.",
+    "images. Does not decide separation distances, channel-width reasoning or the ordering of nudged segments. Added: movement limits only tightened; nudging regions closed under overlapsWith; the pair-constraint loop carries no state; checkpoint cache complete. Added later: changed routing parameters / options always mark the settings dirty and reach the next transaction; fixedOrder only raises the flag the comparator shares; run-time integers narrowed to 16 bits are reviewed sites (connector ids keep full width).",
     "Trusted: clang AST/CFG/call graph; engine/microai; the displayRoute()/router accessors are abstracted by hooks.",
     "guarded-by entailment with early-exit guards, symbolic evaluation of the position write-back, call-graph closure rule, mirror siblings",
     "DESIGN.md §5 C10")
@@ -150,7 +150,11 @@ register("C12",
     "7 in the thorough tier): one connector per junction-free path, exactly one source and one target end per connector, every terminal the "
     "end of exactly one connector, junction and connector lists complete and duplicate-free, routes through the path's points between the "
     "positions of the two ends; performRerouting writes every hyperedge with terminals back and deletes every registered old connector "
-    "and junction. Does not decide that the spanning-tree construction or the improver produce a tree over all terminals.",
+    "and junction; the tree builder flags the dummy pin vertex and its orthogonal-partner copy, which the write-back drops from routes. The "
+    "improver's tree surgery (removeZeroLengthEdges, moveJunctionAlongCommonEdge, segment shifting) is interpreted on hand-made trees: every "
+    "connector keeps an edge of the tree or is recorded deleted, terminal positions are conserved, connector identity changes at junctions "
+    "only, no junction lands on its own connector's terminal; removeJunctionAndMergeConnectors re-attaches the survivor to exactly what the "
+    "deleted connector's far end was attached to. Does not decide that the spanning-tree construction produces a tree over all terminals.",
     "Trusted: the interpreter; ConnRef / ConnEnd / Router are abstracted by hooks that record end-point updates.",
     "abstract interpretation of the write-back recursion on an enumerated family of abstract trees + CFG coverage rules",
     "DESIGN.md §5 C12")
@@ -159,8 +163,9 @@ register("C13",
     "which the constraint's own slack() vanishes on the line from initial to final positions (symbolic rational identity, both "
     "orientations); Node::posOnLine is that interpolation; TopologyConstraints::solve takes the minimum alpha over every topology "
     "constraint, moves every node by it, satisfies (splits / merges) the limiting constraint whenever alpha < 1 and reports it, and the "
-    "add-on repeats while it does. Does not decide that the generated constraints cover every node/segment pair, overlap freedom, or "
-    "convexity of bends.",
+    "add-on repeats while it does; the (dimension, corner) tables agree with one geometric definition; EdgePoint::prune hands every "
+    "StraightConstraint of both merged segments to the merged one; PruneDegenerate drops exactly the non-turning one of two coincident bend "
+    "points. Does not decide that the generated constraints cover every node/segment pair, overlap freedom, or convexity of bends.",
     "Trusted: the interpreter; logging macros abstracted away; clang CFG.",
     "symbolic interpretation (rational identities) + CFG argmin / coverage rules",
     "DESIGN.md §5 C13")
@@ -186,7 +191,7 @@ register("C19",
     "the stem's root->leaf edge is added on every path; identifyRootNode is an argmax scan; NodeBuckets moves are erase-iff-insert and "
     "every former neighbour drops one bucket; Graph::getConnComps erases a node from `remaining` on every path on which it is placed, "
     "adds every reached edge once and records every component. Does not decide acyclicity, degree conditions of the core, symmetric "
-    "tree layout or planarisation.",
+    "tree layout or planarisation. Added: OrthoPlanariser::computeNodeGroups interpreted on small collinear segment sets (incl. zero-length segments; std::sort modelled both as keeping and as reversing equivalent elements): no segment is lost; Graph::route clears routes and bend nodes before routing again.",
     "Trusted: clang AST/CFG; normal forms of call arguments.",
     "CFG coverage / must-pass-through rules and guarded-by entailment over the decomposition code",
     "DESIGN.md §5 C19")
@@ -194,7 +199,7 @@ register("C14",
     "Weak but exact: along every path of doHOLA the padding applied to the caller's nodes sums to zero for core nodes and for non-root tree "
     "nodes (abstract execution over polynomial padding sums), padding primitives add exactly (dw,dh) to every intended node, every routing "
     "adapter of the pipeline is orthogonal, node dimensions are only written by the reviewed setters. Everything else the statement says "
-    "(no overlaps, routes avoid nodes, returned constraints satisfied) is a numerical pipeline result and is not decided. Added: final-rotation consistency (layout options, SepMatrix transform, turn count); Tree::flip / translate keep bounds and nodes together.",
+    "(no overlaps, routes avoid nodes, returned constraints satisfied) is a numerical pipeline result and is not decided. Added: final-rotation consistency (layout options, SepMatrix transform, turn count); Tree::flip / translate keep bounds and nodes together. Added later: the id-ordered merge loops (setPosesInCorrespNodes, padCorrespNodes, Tree::addNetwork, RoutingAdapter::addEdges) interpreted on 9 key-set pairs; tree nodes added to the graph are recorded for the tree's cluster (or unreachable while the box node is present).",
     "Trusted: node classes (core nodes shared with the working copy; per-tree non-root node sets disjoint) as documented in hola.cpp.",
     "abstract interpretation of doHOLA over an additive padding domain + who-writes / constructor-argument rules",
     "DESIGN.md §5 C14")
